@@ -285,7 +285,7 @@ def r4(R, repo):
   conj = set()
   for t in tests:
     vals = t.ast.values if isinstance(t.ast, ast.BoolOp) and isinstance(t.ast.op, ast.And) else [t.ast]
-    conj |= {astu.src(v) for v in vals}
+    conj |= {t_ for v in vals for t_ in astu.mirror_forms(v)}
   ok = '_mesh_assignment_free(rule_mesh_names, result)' in conj and 'result[pos] == _unassigned_axis' in conj and 'rule_model_name in array_dim_names' in conj
   free_called = [x for x in astu.func_calls(f) if astu.call_name(x) == '_mesh_assignment_free']
   R.judge(ok or (not free_called and not evid.calls_deep(repo, f, evid.call_named('_mesh_assignment_free'))) or ('_mesh_assignment_free(rule_mesh_names, result)' in conj), ok, key_of(f, 'assign only if the mesh axes are free and the dimension is unassigned'), (f, st[0].stmt),
